@@ -89,14 +89,19 @@ def large_families():
     return fams
 
 
-def check_tree(acc, case, attrs, sizes, cliques, order, seed):
+def check_tree(acc, case, attrs, sizes, cliques, order, seed, form=None):
     """construct the junction tree for one case and evaluate the oracle"""
     from mbi import Domain
     from mbi.junction_tree import JunctionTree
     dom = Domain(attrs, sizes)
     if isinstance(order, int):
         np.random.seed(seed + 12)
-    jt = JunctionTree(dom, [tuple(c) for c in cliques], elimination_order=order)
+    given = order
+    if form == 'iter' and isinstance(order, list):
+        given = iter(order)         # a one-shot iterator instead of a list
+    elif form == 'tuple' and isinstance(order, list):
+        given = tuple(order)
+    jt = JunctionTree(dom, [tuple(c) for c in cliques], elimination_order=given)
     acc.states += 1
     nodes = jt.maximal_cliques()
     bad = []
@@ -179,7 +184,7 @@ def check_tree(acc, case, attrs, sizes, cliques, order, seed):
     if set(nb.keys()) != set(tnodes) or any(set(nb[n]) != adj[n] for n in tnodes if n in nb):
         bad.append('neighbors() differs from tree adjacency')
     # 9. independent triangulation along the order the implementation reports
-    eo = list(jt.elimination_order)
+    eo = list(order) if (form == 'iter' and isinstance(order, list)) else list(jt.elimination_order)   # an iterator is exhausted by construction
     if sorted(eo) != sorted(attrs):
         bad.append('elimination order %r is not a permutation of the attributes' % (eo,))
     else:
@@ -196,14 +201,14 @@ def check_tree(acc, case, attrs, sizes, cliques, order, seed):
     return not bad
 
 
-def run_case(acc, k, edges, pres, sizes_name, order, seed, naming='letters'):
+def run_case(acc, k, edges, pres, sizes_name, order, seed, naming='letters', form=None):
     attrs = S.ATTRS[:k]
     sizes = S.sizes_for(sizes_name, k)
     cliques = S.present(attrs, edges, pres)
-    case = {'k': k, 'edges': edges, 'pres': pres, 'sizes': sizes_name, 'order': order, 'seed': seed, 'naming': naming}
-    acc.case({'c': cliques, 'o': order, 's': sizes_name, 'n': naming}, nontrivial=len(edges) > 0)
+    case = {'k': k, 'edges': edges, 'pres': pres, 'sizes': sizes_name, 'order': order, 'seed': seed, 'naming': naming, 'form': form}
+    acc.case({'c': cliques, 'o': order, 's': sizes_name, 'n': naming, 'f': form}, nontrivial=len(edges) > 0)
     acc.traces += 1
-    check_tree(acc, case, S.rename(attrs, naming), sizes, S.rename(cliques, naming), S.rename(order, naming), seed)
+    check_tree(acc, case, S.rename(attrs, naming), sizes, S.rename(cliques, naming), S.rename(order, naming), seed, form)
 
 
 def run_job(job):
@@ -235,6 +240,9 @@ def run_job(job):
                     continue
                 for order in orders_for(attrs, job['orders']):
                     run_case(acc, k, edges, pres, sizes_name, order, seed)
+                    if sizes_name == 'main' and pres == 'edges' and isinstance(order, list) and k >= 3:
+                        # the same order given as a one-shot iterator / as a tuple
+                        run_case(acc, k, edges, pres, sizes_name, order, seed, form=('iter' if S.ATTRS.index(order[0]) % 2 == 0 else 'tuple'))
                     if sizes_name == 'main' and pres in ('edges', 'maximal') and k <= 5:
                         run_case(acc, k, edges, pres, sizes_name, order, seed, naming='scrambled')
         acc.sample({'k': k, 'edges': edges, 'pres': 'maximal', 'cliques': S.present(attrs, edges, 'maximal'), 'order': attrs[::-1]})
@@ -247,7 +255,7 @@ def replay(case):
         n, cl = large_families()[case['large']]
         check_tree(acc, case, S.ATTRS[:n], S.SIZES_MAIN[:n], cl, case['order'], case['seed'])
     else:
-        run_case(acc, case['k'], [tuple(e) for e in case['edges']], case['pres'], case['sizes'], case['order'], case['seed'], case.get('naming', 'letters'))
+        run_case(acc, case['k'], [tuple(e) for e in case['edges']], case['pres'], case['sizes'], case['order'], case['seed'], case.get('naming', 'letters'), case.get('form'))
     for v in acc.violations:
         print(v['msg'])
     return acc.violations
